@@ -24,6 +24,7 @@ rules = [
  (r'endpoint/pair-verify.go.*call', 'NewSecureSessionFromSharedKey fails only if HKDF cannot produce 32 bytes'),
  (r'http/server.go', 'start-up (listener creation)'),
  (r'(setup|verify)_server_controller.go.*slice', 'guarded by the explicit length check len(data) ≥ 16 added by the fix (exercised by the malformed stream)'),
+ (r'setup_server_session.go.*leftPad', 'len(b) < n by the early return for len(b) ≥ n two lines above (exercised by stream srp-key-length)'),
  (r'setup_server_controller.go.*call', 'signing with the accessory\'s own 64-byte key cannot fail'),
  (r'ip_transport.go.*notifyListener', 'json.Marshal of a characteristic value, which always encodes (C12)'),
  (r'ip_transport.go', 'start-up; application input'),
